@@ -65,7 +65,7 @@ var (
 func spaces(thorough bool) []Space {
 	lo := []string{"ok", "lo"}
 	if !thorough {
-		return []Space{
+		return append([]Space{
 			{Name: "regular", Kind: "regular", Pays: []string{"L", "Mr0", "Mr+", "Mr-", "Mw0"}, Amts: amts5, Exps: lo, Ctl: ctlR, Depth: 4},
 			{Name: "hold", Kind: "hold", Pays: []string{"L", "Mr0", "Mr+", "Mr-", "Mw0"}, Amts: amts5, Exps: lo, Ctl: ctlH, Depth: 4},
 			{Name: "zero", Kind: "zero", Pays: []string{"L", "Mr0", "Mr-", "Mw0"}, Amts: amts5, Exps: lo, Ctl: ctlR, Depth: 4},
@@ -73,13 +73,13 @@ func spaces(thorough bool) []Space {
 			{Name: "keysend", Kind: "keysend", Pays: []string{"Kr", "Kw", "Km", "L", "Mr0"}, Amts: amts5, Exps: lo, Ctl: ctlR, Depth: 4},
 			{Name: "amp", Kind: "amp", Pays: []string{"A10r0g", "A11r0g", "A11r0b", "A11r+g", "A11w0g", "A2sr0g", "Mr0", "L"}, Amts: amts3, Exps: lo, Ctl: ctlR, Depth: 3},
 			{Name: "amp-core", Kind: "amp", Pays: []string{"A10r0g", "A11r0g", "A11r0b", "A2sr0g"}, Amts: []int64{valueV / 2, valueV}, Exps: []string{"ok"}, Ctl: ctlR, Depth: 4},
-		}
+		}, specialSpaces(4, false)...)
 	}
 	exps := []string{"ok", "lo", "hi"}
 	ctlR4 := []string{"r:1", "r:2", "r:3", "r:4", "c", "t", "b"}
 	ctlH4 := []string{"r:1", "r:2", "r:3", "r:4", "c", "s:r", "s:w", "t", "b"}
 	// ordered so that the largest spaces run last (a deadline then caps only them)
-	return []Space{
+	return append(specialSpaces(5, true), []Space{
 		{Name: "ampjit", Kind: "ampjit", Pays: []string{"A10r0g", "A11r0g", "A11r0b", "A11r+g", "A2sr0g", "A2sr-g"}, Amts: amts3, Exps: exps, Ctl: ctlR, Depth: 3},
 		{Name: "keysend", Kind: "keysend", Pays: []string{"Kr", "Kw", "Km", "L", "Mr0"}, Amts: amts5, Exps: exps, Ctl: ctlR, Depth: 5},
 		{Name: "zero", Kind: "zero", Pays: []string{"L", "Mr0", "Mr+", "Mr-", "Mw0"}, Amts: amts5, Exps: exps, Ctl: ctlR, Depth: 4},
@@ -92,7 +92,38 @@ func spaces(thorough bool) []Space {
 		{Name: "regular-deep", Kind: "regular", Pays: []string{"L", "Mr0", "Mr+"}, Amts: amts3, Exps: []string{"ok"}, Ctl: ctlR4, Depth: 6, Keys: 4},
 		{Name: "hold-deep", Kind: "hold", Pays: []string{"L", "Mr0", "Mr+"}, Amts: amts3, Exps: []string{"ok"}, Ctl: ctlH4, Depth: 6, Keys: 4},
 		{Name: "amp-deep", Kind: "amp", Pays: []string{"A10r0g", "A11r0g", "A11r0b", "A2sr0g"}, Amts: []int64{valueV / 2, valueV}, Exps: []string{"ok"}, Ctl: ctlR4, Depth: 6, Keys: 4},
+	}...)
+}
+
+// specialSpaces: one space per kind whose value alphabets consist of the structural
+// special values that the invoices package itself singles out (grep `Blank`, `== 0`,
+// `!= 0`, zero-array comparisons), crossed with the ordinary values needed to build a set
+// around them:
+//
+//	payment address / blinded path id   all-zero = BlankPayAddr  (invoices.go, sql_store.go lookups, channeldb index)
+//	declared total                      0                        (update.go `totalAmt == 0`, sql_store.go `MppTotalAmt != 0`)
+//	AMP set id                          all-zero                 (update.go `*setID == BlankPayAddr`, HtlcSetBlankModifier)
+//	payment hash                        all-zero                 (invoice lookups by hash + address)
+//	preimage (keysend record, hold settle)  all-zero
+//	amount                              0                        (AmtPaid / AmountPaid `!= 0` checks, zero-value invoices)
+//	expiry                              0                        (expiry watcher `minHeight == 0`)
+//	AMP child index                     0 is used by every set; two HTLCs with the same set id and child index occur
+func specialSpaces(depth int, thorough bool) []Space {
+	am := []int64{0, valueV / 2, valueV}
+	ex := []string{"ok", "z"}
+	ctlHz := []string{"r:1", "r:2", "r:3", "c", "s:r", "s:z", "t", "b"}
+	sp := []Space{
+		{Name: "regular-special", Kind: "regular", Pays: []string{"L", "Mr0", "Mz0", "Mrz", "Mzz", "Zr0", "Zz0"}, Amts: am, Exps: ex, Ctl: ctlR, Depth: depth},
+		{Name: "hold-special", Kind: "hold", Pays: []string{"L", "Mr0", "Mz0", "Mrz", "Zr0"}, Amts: am, Exps: ex, Ctl: ctlHz, Depth: depth},
+		{Name: "zero-special", Kind: "zero", Pays: []string{"L", "Mr0", "Mz0", "Mrz", "Mzz", "Zr0"}, Amts: am, Exps: ex, Ctl: ctlR, Depth: depth},
+		{Name: "blinded-special", Kind: "blinded", Pays: []string{"L", "Pr0", "Pz0", "Prz", "Pzz", "Mz0", "Zr0"}, Amts: am, Exps: ex, Ctl: ctlR, Depth: depth},
+		{Name: "keysend-special", Kind: "keysend", Pays: []string{"Kr", "Kz", "Km", "L", "Mz0", "Mr0", "Zz0"}, Amts: am, Exps: ex, Ctl: ctlR, Depth: depth},
+		{Name: "amp-special", Kind: "amp", Pays: []string{"A2sr0g", "A3sr0g", "A2sz0g", "A2srzg", "A10r0g", "A11r0g", "A11z0g", "A30r0g", "Mz0"}, Amts: am, Exps: []string{"ok"}, Ctl: ctlR, Depth: depth},
 	}
+	if thorough {
+		sp = append(sp, Space{Name: "ampjit-special", Kind: "ampjit", Pays: []string{"A2sr0g", "A3sr0g", "A2sz0g", "A2srzg", "A10r0g", "A11r0g"}, Amts: am, Exps: []string{"ok"}, Ctl: ctlR, Depth: 3})
+	}
+	return sp
 }
 
 // replayDoc is the replay artefact of a violation.
@@ -306,6 +337,9 @@ func TestC15(t *testing.T) {
 			sps[i].Depth = d
 		}
 	}
+	if os.Getenv("C15_ONLYCONC") != "" {
+		sps = nil
+	}
 	if only := os.Getenv("C15_SPACE"); only != "" {
 		var f []Space
 		for _, s := range sps {
@@ -464,7 +498,8 @@ func TestC15(t *testing.T) {
 	}
 	run.Assumptions = append(run.Assumptions,
 		"universe: one invoice at a time of kind regular / hold / zero-amount / AMP / keysend (just-in-time) / blinded-path (thorough: also spontaneous AMP), value 1000 msat; at most 3 recorded HTLCs; "+
-			"amounts {499,500,501,1000,1001}, declared totals {999,1000,1001,absent}, address {right,wrong,absent}, expiry {margin-1,margin,margin+1} above the base height, heights base..base+2; histories up to the per-space depth bound",
+			"amounts {499,500,501,1000,1001}, declared totals {999,1000,1001,absent}, address {right,wrong,absent}, expiry {margin-1,margin,margin+1} above the base height, heights base..base+2; histories up to the per-space depth bound; "+
+			"plus one '-special' space per kind over the structural special values the invoices package singles out: all-zero payment address / path id (BlankPayAddr), declared total 0, all-zero AMP set id, all-zero payment hash, all-zero preimage (keysend record, hold settle), amount 0, expiry 0, crossed with amounts {0,500,1000}",
 		"circuit keys are interchangeable: a new HTLC always takes the lowest circuit key the invoice does not record (an HTLC refused without being recorded leaves no trace in the registry, so its key is free again)",
 		"a replay is the exact re-notification of an HTLC the invoice records; an HTLC refused without being recorded is a new HTLC when presented again",
 		"the payment address is required iff the invoice's feature vector requires payment_addr (a blinded-path invoice, as generated by lnd, does not)",
